@@ -933,7 +933,7 @@ pub(crate) fn c16_fresh<A: Allocator>() {
 fn c16_fresh_unsync() {
   c16_fresh::<unsync::Arena>();
 }
-// @h props=C16 tier=quick timeout=1200 bounds=CAP=112,reserved<=24:symbolic,unify:symbolic,freelist:symbolic,magic:any,retries=1
+// @h props=C16 tier=thorough timeout=2400 mem=28 bounds=CAP=112,reserved<=24:symbolic,unify:symbolic,freelist:symbolic,magic:any,retries=1
 #[kani::proof]
 #[kani::unwind(10)]
 fn c16_fresh_sync() {
